@@ -5,11 +5,15 @@ C01 (cursor tie) — the list-level model `WM.Compile.compile` is what the match
 trees denote.
 
 `WM.Compile.build` mirrors `Query.matcher(subsearcher, context)` in the cursor vocabulary of
-`WM/Model/MatcherTree.lean` (ListMatcher leaves over the term postings, `mkInter`, `mkUnion`,
-`mkDisMax`, `mkAndNot`, `mkAndMaybe`, `mkRequire`, `mkInverse`, `mkConst`, `mkBoost`, the same tree
-shapes).  `TreeOnly s ctx q` says that `q` consists of term / null leaves and boolean constructors
-and that no `Or` of three or more clauses is built in a context that turns it into an array union
-(which the cursor vocabulary has no node for).
+`WM/Model/MatcherTree.lean` (ListMatcher leaves over the term postings and for `Every`, `mkInter`,
+`mkUnion`, `mkDisMax`, `mkAndNot`, `mkAndMaybe`, `mkRequire`, `mkInverse`, `mkConst`, `mkBoost`,
+`mkAUnion`, the same tree shapes, the expansion of multi-term queries against the segment lexicon).
+`CursorOK ls s ctx q` says that `q` consists of term / null / Every leaves, multi-term queries and
+boolean constructors and that every array union built for it (an `Or` of three or more clauses, or a
+multi-term query expanding to three or more terms, in a context that does not need the current
+match, on a segment of at most 5000 documents) is a *scored* one with a positive boost over plain
+term matchers with positive leaf scores — the array union the matcher family models.  Phrase
+(spans), numeric ranges (C13) and the unscored array union (`scored=False`) are outside.
 -/
 namespace WM.C01
 open WM.Search WM.Compile
@@ -18,7 +22,7 @@ open WM.Search WM.Compile
     succeeds (no constructor raises), the tree satisfies the matcher family's invariant `WF`, and
     its remaining result list `den` is exactly the compiled list. -/
 theorem cursor_den (ls : LeafScore) (so : ShapeOracle) (s : Segment) (q : Query) (ctx : Ctx)
-    (h : TreeOnly s ctx q) :
+    (h : CursorOK ls s ctx q) :
     ∃ m, build ls so s ctx q = .ok m ∧ WM.Matcher.WF m.1 m.2 ∧ toPL m.den = compile ls so s ctx q := by
   obtain ⟨m, h1, h2, h3⟩ := build_denotes ls so s q ctx h
   exact ⟨m, h1, h2, h3⟩
@@ -28,7 +32,7 @@ theorem cursor_den (ls : LeafScore) (so : ShapeOracle) (s : Segment) (q : Query)
     list whose ids are exactly the live documents satisfying the query. -/
 theorem cursor_answers (ls : LeafScore) (so : ShapeOracle) (s : Segment) (hso : ValidOracle so)
     (hleaf : PosLeaf ls s) (q : Query) (hq : PosQ q) (ctx : Ctx)
-    (h : TreeOnly s ctx q) :
+    (h : CursorOK ls s ctx q) :
     ∃ m, build ls so s ctx q = .ok m ∧ WM.Matcher.WF m.1 m.2 ∧
       m.den.map (·.1) = s.live.filter (fun i => sat q (s.doc i)) := by
   obtain ⟨m, h1, h2, h3⟩ := cursor_den ls so s q ctx h
@@ -41,10 +45,37 @@ theorem cursor_answers (ls : LeafScore) (so : ShapeOracle) (s : Segment) (hso : 
     match, on the first example segment -/
 def curQ : Query := .andNot (.or [.term "t" [97] 2, .term "t" [98] 1] 1) (.not (.term "t" [99] 1))
 
-example : TreeOnly exSeg1 ⟨true, true⟩ curQ := by
-  simp [curQ, TreeOnly, TreeOnlyL]
+example : CursorOK freqLeaf exSeg1 ⟨true, true⟩ curQ := by
+  simp [curQ, CursorOK, CursorOKL, UnionOK]
 
 example : (build freqLeaf balancedOracle exSeg1 ⟨true, true⟩ curQ).toOption.map (fun m => m.den) =
     some [(0, 1)] := by decide +kernel
+
+/-- … and beyond round 2's fragment: a segment of four documents `a b`, `b c`, `a c c`, `d`; an open
+    term range that expands to the three terms of the field (not constant-score, boost 2: a *scored array union* over the three
+    term matchers in a plain `search()` context), an `Every` over the field and over all documents, a
+    constant-score prefix under `Not` (boolean context: two terms, a union, pre-read through `all_ids()`). -/
+def mSeg : Segment := ⟨[⟨[⟨"t", 1, [tok 97 0, tok 98 1], []⟩]⟩, ⟨[⟨"t", 1, [tok 98 0, tok 99 1], []⟩]⟩,
+                        ⟨[⟨"t", 2, [tok 97 0, tok 99 1, tok 99 2], []⟩]⟩, ⟨[⟨"u", 1, [tok 100 0], []⟩]⟩], [1]⟩
+def mQ : Query := .andMaybe (.or [.multi "t" (.range none none false false) 2 false, .every none 1] 1)
+                    (.andNot (.every (some "t") 3) (.not (.multi "t" (.pfx [97]) 1 true)))
+
+theorem mQ_ok : CursorOK freqLeaf mSeg ⟨false, true⟩ mQ := by
+  have hpos : ∀ t ∈ ([[97], [98], [99]] : List Term), ∀ e ∈ postings freqLeaf mSeg "t" t, 0 < e.score := by decide +kernel
+  have hlex : (lexicon mSeg "t").filter (TermPred.range none none false false).test = [[98], [97], [99]] := by decide +kernel
+  simp only [mQ, CursorOK, CursorOKL, and_true, true_and]
+  refine ⟨⟨.inr ?_, .inl (by decide)⟩, .inr (.inl (by decide +kernel))⟩
+  rw [hlex]
+  refine .inr (.inr ⟨rfl, by decide +kernel, ?_⟩)
+  intro q hq
+  simp only [List.map_cons, List.map_nil, List.mem_cons, List.not_mem_nil, or_false] at hq
+  rcases hq with rfl | rfl | rfl
+  · exact ⟨"t", [98], rfl, hpos _ (by simp)⟩
+  · exact ⟨"t", [97], rfl, hpos _ (by simp)⟩
+  · exact ⟨"t", [99], rfl, hpos _ (by simp)⟩
+
+example : (build freqLeaf balancedOracle mSeg ⟨false, true⟩ mQ).toOption.map (fun m => (m.1, m.den)) =
+    some (.andMaybe (.union (.aunion .list) .list) (.andNot .list (.inverse .list)),
+          [(0, 8), (2, 16), (3, 1)]) := by decide +kernel
 
 end WM.C01
